@@ -56,6 +56,19 @@ EXPRESSIONS names | int >= 0, str, None, True, False literals | 2-tuples | self.
                  dict: key; dyn: str key; V: Fn.vops)         e[a:b]  (no step)
           all(<cond> for v in <list expr>)   [<expr that cannot raise> for v in <list expr>]   '<literal>'.join(<list of str>)
           <regex>.search(<str>)   <ndarray>.shape
+STATE     (Fn(state='_content', mutates=True)) the attribute self._content is the Coq variable st__, threaded through every statement;
+          a state-changing function returns `res (result * state)`.  Stores only through class dictionaries:
+          `<inst>.get_class_dict(C)[k] = v` / `del ...[k]` / `x = <inst>.get_class_dict(C); x[k] = v` -> dyn_set2 / dyn_del2 on the state
+          of that instance (get_class_dict is checked to be `base, sub = classification; return self._content[base][sub]`); calls of
+          state-changing methods rebind the state (statement level only).  OTHER INSTANCES of the class: a parameter of type `object`
+          (its header attributes <p>__<attr> and its state <p>__st are parameters, read-only) and a local instance created by the declared
+          constructor call (Fn.new_object; its content comes from a parameter, its state may be changed, `return x` returns its content).
+          Functions translated in another generated module are called through Fn.imports.
+MORE      for .. else / break (py_for_b);  variables bound inside a loop and read after it are carried as options (UnboundLocalError =
+          ECrash);  loop-carried variables may go from None to a value (option);  `while` with a declared bound (Fn.while_fuel);
+          `assert <cond>`;  `l[i] = v`, `l += e`, `l.extend(e)`, `list(e)`, `[e1, ..]`, `[]` on lists built in the function;
+          `deepcopy(e)` = e;  `l * n`;  v[i], v[a:b], v[a:b:s], len, iteration, `.keys()`, iteritems on dynamic values;  arithmetic with a
+          None-able operand (TypeError);  `x == e` narrows an option-typed x in its branch;  tuple displays as loop sequences.
 Everything that can raise becomes a monadic bind, emitted in Python's evaluation order."""
 import ast, re
 from astlib import TableError, find_func, cstr, cnat, cq, float_lit_exact
@@ -343,6 +356,11 @@ class Tr:
         return self.coerce(term, ty, to, node)
 
     # ------------------------------------------------------------------ expressions
+    @staticmethod
+    def is_zero(b):
+        """a literal 0 as lower bound of a slice: the same as the omitted bound"""
+        return isinstance(b, ast.Constant) and isinstance(b.value, int) and not isinstance(b.value, bool) and b.value == 0
+
     def bound(self, b, env):
         """slice bound / index -> Coq term of type bnd"""
         if isinstance(b, ast.Constant) and isinstance(b.value, int) and not isinstance(b.value, bool) and b.value >= 0:
@@ -522,7 +540,7 @@ class Tr:
                     and not isinstance(e.slice.value, bool):
                 return '(%s %s)' % ('fst' if e.slice.value == 0 else 'snd', a), ta[1 + e.slice.value]
             if ta == DYN and isinstance(e.slice, ast.Slice) and e.slice.step is not None:
-                lo = 'None' if e.slice.lower is None else '(Some %s)' % self.bound(e.slice.lower, env)
+                lo = 'None' if (e.slice.lower is None or self.is_zero(e.slice.lower)) else '(Some %s)' % self.bound(e.slice.lower, env)
                 hi = 'None' if e.slice.upper is None else '(Some %s)' % self.bound(e.slice.upper, env)
                 stp, tstp = self.expr(e.slice.step, env)
                 if tstp == OPT(NAT):       # a step of None is the default step 1
@@ -533,7 +551,7 @@ class Tr:
             if ta == DYN and isinstance(e.slice, ast.Slice):
                 if e.slice.step is not None:
                     self.fail(e, 'slice with a step')
-                lo = 'None' if e.slice.lower is None else '(Some %s)' % self.bound(e.slice.lower, env)
+                lo = 'None' if (e.slice.lower is None or self.is_zero(e.slice.lower)) else '(Some %s)' % self.bound(e.slice.lower, env)
                 hi = 'None' if e.slice.upper is None else '(Some %s)' % self.bound(e.slice.upper, env)
                 return self.bind('dyn_slice %s %s %s' % (lo, hi, a)), DYN
             if ta == DYN:
@@ -558,7 +576,7 @@ class Tr:
             if isinstance(e.slice, ast.Slice):
                 if e.slice.step is not None:
                     self.fail(e, 'slice with a step')
-                lo = 'None' if e.slice.lower is None else '(Some %s)' % self.bound(e.slice.lower, env)
+                lo = 'None' if (e.slice.lower is None or self.is_zero(e.slice.lower)) else '(Some %s)' % self.bound(e.slice.lower, env)
                 hi = 'None' if e.slice.upper is None else '(Some %s)' % self.bound(e.slice.upper, env)
                 return '(pslice %s %s %s)' % (lo, hi, a), ta
             if ta == STR:
@@ -959,6 +977,14 @@ class Tr:
                 args.append(self.coerce(a, ta, t, x))
             self.used_ext.add(f.value.id + '.' + f.attr)
             return '(%s %s)' % (name, ' '.join(args)), tret
+        if isinstance(f, ast.Attribute) and f.attr in ('items', 'iteritems', 'values', 'itervalues') and not e.args:
+            a, ta = self.expr(f.value, env)
+            if ta != DYN:
+                self.fail(e, '.%s() of a value of type %r' % (f.attr, ta))
+            t = self.bind('dyn_items %s' % a)        # AttributeError when it is not a dict, like iteritems(d)
+            if f.attr in ('items', 'iteritems'):
+                return t, LIST(PAIR(STR, DYN))
+            return '(List.map snd %s)' % t, LIST(DYN)
         if isinstance(f, ast.Attribute) and f.attr == 'keys' and not e.args:
             a, ta = self.expr(f.value, env)
             if ta != DYN:
